@@ -50,6 +50,10 @@ func wraps(v, target ssa.Value, depth int) bool {
 				if sv := singleFieldStore(fa); sv != nil {
 					return wraps(sv, target, depth+1)
 				}
+				// a writer that the file's owner keeps stacked on its file (`out.cr`)
+				if ownerWrapperField(fa) && root(fa.X) == root(target) {
+					return true
+				}
 			}
 		}
 	}
@@ -157,7 +161,15 @@ func r6HelperCleanup(p *Program, callee *ssa.Function, args []ssa.Value, file, p
 	if depth > 2 {
 		return 0
 	}
-	var pf, pp ssa.Value
+	pf, pp := r6HelperBind(p, callee, args, file, pathArg)
+	if pf == nil && pp == nil {
+		return 0
+	}
+	return mustEvents(callee, r6HelperTr(p, callee, pf, pp, depth)) & 7
+}
+
+// r6HelperBind: which parameters of callee receive the file and the path (directly, or as their owner).
+func r6HelperBind(p *Program, callee *ssa.Function, args []ssa.Value, file, pathArg ssa.Value) (pf, pp ssa.Value) {
 	for i, a := range args {
 		if i >= len(callee.Params) {
 			break
@@ -165,13 +177,16 @@ func r6HelperCleanup(p *Program, callee *ssa.Function, args []ssa.Value, file, p
 		if file != nil && sameValue(a, file) {
 			pf = callee.Params[i]
 		}
-		if pathArg != nil && sameValue(a, pathArg) {
+		if pathArg != nil && (sameValue(a, pathArg) || ownsPath(p, p.owners, a, pathArg)) {
 			pp = callee.Params[i]
 		}
 	}
-	if pf == nil && pp == nil {
-		return 0
-	}
+	return pf, pp
+}
+
+// r6HelperTr: what a package-level helper does to the file pf / the path pp it was handed (bits: 1 closed,
+// 2 removed, 4 synced), helpers it calls in turn included.
+func r6HelperTr(p *Program, callee *ssa.Function, pf, pp ssa.Value, depth int) transferFn {
 	var tr transferFn
 	tr = func(in ssa.Instruction, ev uint64, deferred bool) []uint64 {
 		cs, ok := in.(ssa.CallInstruction)
@@ -209,7 +224,53 @@ func r6HelperCleanup(p *Program, callee *ssa.Function, args []ssa.Value, file, p
 		}
 		return nil
 	}
-	return mustEvents(callee, tr) & 7
+	return tr
+}
+
+// errGuardedHelper: a package-level routine of the shape `func (o *owner) abortOnError(err *error) { if
+// *err != nil { cleanup } }` — its first test is on the error its pointer parameter points at. Returns the
+// index of that parameter and what the routine certainly does to the file / path on either side.
+func errGuardedHelper(p *Program, callee *ssa.Function, args []ssa.Value, file, pathArg ssa.Value) (gi int, whenNonNil, whenNil uint64, ok bool) {
+	if callee == nil || len(callee.Blocks) == 0 || callee.Parent() != nil {
+		return -1, 0, 0, false
+	}
+	entry := callee.Blocks[0]
+	iff, isIf := entry.Instrs[len(entry.Instrs)-1].(*ssa.If)
+	if !isIf {
+		return -1, 0, 0, false
+	}
+	x, nilWhen, isTest := errNilTest(iff.Cond)
+	if !isTest {
+		return -1, 0, 0, false
+	}
+	u, isU := x.(*ssa.UnOp)
+	if !isU || u.Op != token.MUL {
+		return -1, 0, 0, false
+	}
+	gi = -1
+	for i, q := range callee.Params {
+		if u.X == ssa.Value(q) && readOnlyPtrParam(q) {
+			gi = i
+		}
+	}
+	if gi < 0 || gi >= len(args) {
+		return -1, 0, 0, false
+	}
+	for _, in := range entry.Instrs {
+		if _, isCall := in.(ssa.CallInstruction); isCall {
+			return -1, 0, 0, false
+		}
+	}
+	pf, pp := r6HelperBind(p, callee, args, file, pathArg)
+	if pf == nil && pp == nil {
+		return -1, 0, 0, false
+	}
+	tr := r6HelperTr(p, callee, pf, pp, 0)
+	t, f := guardSide(callee, entry, true, tr)&7, guardSide(callee, entry, false, tr)&7
+	if nilWhen {
+		return gi, f, t, true // true edge = error is nil
+	}
+	return gi, t, f, true
 }
 
 // returnsCellContent: the error result of the return that ends block b is the
@@ -524,6 +585,10 @@ func r6OneProducer(c *RuleCtx, fn *ssa.Function, props []string) {
 				}
 				c.r6Cleanup[call] = info
 			}
+			if o := ownerOfType(c.p.owners, file.Type()); o != nil {
+				setAlias(c.p.SSA, file, o.fileField, file)
+				setAlias(c.p.SSA, file, o.pathField, root(call.Call.Args[info.pathIdx]))
+			}
 			r6ProducerBody(c, fn, props, name, call, file, aerr, call.Call.Args[info.pathIdx], 0)
 			return
 		}
@@ -558,6 +623,9 @@ func r6ProducerBody(c *RuleCtx, fn *ssa.Function, props []string, name string, a
 		evAssumeNil    = 1 << 61
 		// the file was closed after every completion step (and Sync) had run
 		evOrderly = 1 << 60
+		// the file's owner was marked as committed (a bool field of the owner set to true): a deferred
+		// routine of the owner that is guarded by that field does nothing from here on
+		evCommitted = 1 << 63
 	)
 	// a buffer whose content is handed to the file in one Write (`f.Write(buf.Bytes())`) stands for the
 	// file: what is written into it is what the file will contain
@@ -660,14 +728,14 @@ func r6ProducerBody(c *RuleCtx, fn *ssa.Function, props []string, name string, a
 			for ai, a := range cs.Common().Args {
 				if wrapsOut(a) {
 					addRole(callee.Name(), cs, true)
-					if (sameValue(a, file) || sameValue(root(a), file)) && depth < 2 && ai < len(callee.Params) && len(callee.Blocks) > 0 && (isNamed(callee.Params[ai].Type(), "os", "File") || isWriterInterface(callee.Params[ai].Type())) {
+					if (sameValue(a, file) || sameValue(root(a), file)) && depth < 2 && ai < len(callee.Params) && len(callee.Blocks) > 0 && (isNamed(callee.Params[ai].Type(), "os", "File") || isWriterInterface(callee.Params[ai].Type()) || ownerOfType(c.p.owners, callee.Params[ai].Type()) != nil) {
 						// handed the file itself: a delegate, judged by the same discipline
 						if _, done := delegateSucc[cs]; !done {
 							// the path, if the delegate is handed it too (it may then discard the file itself)
 							var dpath ssa.Value
 							if pathArg != nil {
 								for aj, a2 := range cs.Common().Args {
-									if aj < len(callee.Params) && sameValue(a2, pathArg) {
+									if aj < len(callee.Params) && (sameValue(a2, pathArg) || ownsPath(c.p, c.p.owners, a2, pathArg)) {
 										dpath = callee.Params[aj]
 									}
 								}
@@ -1018,6 +1086,14 @@ func r6ProducerBody(c *RuleCtx, fn *ssa.Function, props []string, name string, a
 		return out
 	}
 	tr0 = func(in ssa.Instruction, ev uint64, deferred bool) []uint64 {
+		if st, isSt := in.(*ssa.Store); isSt {
+			if fa, isFA := st.Addr.(*ssa.FieldAddr); isFA && ownerOfType(c.p.owners, fa.X.Type()) != nil && sameValue(fa.X, file) {
+				if k, isK := constBool(st.Val); isK && k {
+					return []uint64{ev | evCommitted}
+				}
+			}
+			return nil
+		}
 		cs, ok := in.(ssa.CallInstruction)
 		if !ok {
 			return nil
@@ -1122,6 +1198,53 @@ func r6ProducerBody(c *RuleCtx, fn *ssa.Function, props []string, name string, a
 			return []uint64{ev | s}
 		}
 		if c.p.InZap(callee) && callee.Parent() == nil && len(callee.Blocks) > 0 {
+			// a deferred routine of the owner guarded by the owner's committed flag
+			// (`defer sf.discardUnlessCommitted()`): what it does depends on whether the step that sets the
+			// flag has succeeded on this path — or is what this exit returns
+			if deferred && pa != nil && pa.cur != nil {
+				if whenSet, whenUnset, ok := flagGuardedHelper(c.p, callee, cs.Common().Args, file, pathArg); ok {
+					if ev&evCommitted != 0 {
+						return []uint64{ev | whenSet}
+					}
+					// a committing step that may set the flag and still fail, and that may have run on this
+					// path: nothing is certain about what the guarded routine does
+					for dcs := range delegateSucc {
+						if dc := staticCallee(dcs); dc != nil && c.r6FailFlag[dc] {
+							if e := siteOfCall[dcs]; e == nil || ev&(e.u|e.n) != 0 || dcs.Block() == pa.cur {
+								return []uint64{ev | (whenSet & whenUnset)}
+							}
+						}
+					}
+					if ret, isRet := pa.cur.Instrs[len(pa.cur.Instrs)-1].(*ssa.Return); isRet {
+						if v, _ := errorOfReturn(ret); v != nil {
+							for dcs, sm := range delegateSucc {
+								if dv := errValueOfCall(dcs); sm&evCommitted != 0 && dv != nil && (sameValue(dv, v) || sameValue(dv, resolveLoad(v))) {
+									return []uint64{ev | whenUnset | evAssumeNonNil, ev | whenSet | evCommitted | evAssumeNil}
+								}
+							}
+						}
+					}
+					return []uint64{ev | whenUnset}
+				}
+			}
+			// a deferred routine guarded by the error variable it is handed the address of
+			// (`defer out.abortOnError(&err)`): what it does depends on that variable at this exit
+			if deferred && pa != nil && pa.cur != nil {
+				if gi, whenNonNil, whenNil, ok := errGuardedHelper(c.p, callee, cs.Common().Args, file, pathArg); ok {
+					if cell := cellOf(cs.Common().Args[gi]); cell != nil && cell.Parent() == fn {
+						switch guardStateAt(cell, pa.cur) {
+						case nonNil:
+							return []uint64{ev | whenNonNil}
+						case isNil:
+							return []uint64{ev | whenNil}
+						}
+						if returnsCellContent(pa.cur, cell) {
+							return []uint64{ev | whenNonNil | evAssumeNonNil, ev | whenNil | evAssumeNil}
+						}
+						return []uint64{ev | (whenNonNil & whenNil)}
+					}
+				}
+			}
 			// a package-level helper handed the file and/or the path (the
 			// closure `cleanup` written as a function): what it does to
 			// them on every path
@@ -1236,9 +1359,10 @@ func r6ProducerBody(c *RuleCtx, fn *ssa.Function, props []string, name string, a
 	// exits that report success, below — a Close that doubles as the cleanup of a failed step may well
 	// run early)
 	// exits
-	succMust := uint64(evClosed | evSync | evOrderly)
+	succMust := uint64(evClosed | evSync | evOrderly | evCommitted)
 	failMust := uint64(evClosed | evRemoved)
 	failSeen := false
+	var failKnown []uint64
 	nSucc := 0
 	labels := map[string]int{}
 	for _, ret := range returnsOf(fn) {
@@ -1292,6 +1416,43 @@ func r6ProducerBody(c *RuleCtx, fn *ssa.Function, props []string, name string, a
 				failSeen = true
 			}
 		}
+		// what the returned value is known to be in each state (`return err` where err holds the error of
+		// a completion step that was found nil / non-nil on this path)
+		retKnown := func(ev uint64) nilState {
+			if knowOverflow || v == nil {
+				return nilUnknown
+			}
+			if es := resolveErr(v, ev, 0); es != nil {
+				if ev&es.n != 0 {
+					return nonNil
+				}
+				if ev&es.u == 0 {
+					return isNil
+				}
+			}
+			return nilUnknown
+		}
+		if delegateMode && ns != isNil {
+			// (recomputed with that knowledge)
+			failMust2 := uint64(evClosed | evRemoved)
+			seen2 := false
+			for _, ev := range states {
+				if ev&evAssumeNil != 0 || retKnown(ev) == isNil {
+					continue
+				}
+				failMust2 &= ev
+				seen2 = true
+				if ev&evCommitted != 0 {
+					if c.r6FailFlag == nil {
+						c.r6FailFlag = map[*ssa.Function]bool{}
+					}
+					c.r6FailFlag[fn] = true
+				}
+			}
+			if seen2 {
+				failKnown = append(failKnown, failMust2)
+			}
+		}
 		if needFail {
 			// a delegate whose error is what is returned here has, in the world where it failed, done what
 			// it does on failure (`err = finishSegmentFile(f, path)` discards the file itself)
@@ -1303,7 +1464,7 @@ func r6ProducerBody(c *RuleCtx, fn *ssa.Function, props []string, name string, a
 			}
 			okc := true
 			for _, ev := range states {
-				if ev&evAssumeNil != 0 {
+				if ev&evAssumeNil != 0 || retKnown(ev) == isNil {
 					continue // the world in which this exit returns nil
 				}
 				ev |= viaFailed
@@ -1328,7 +1489,7 @@ func r6ProducerBody(c *RuleCtx, fn *ssa.Function, props []string, name string, a
 				}
 			}
 			for _, ev := range states {
-				if ev&evAssumeNonNil != 0 {
+				if ev&evAssumeNonNil != 0 || retKnown(ev) == nonNil {
 					continue // the world in which this exit returns an error
 				}
 				ev |= viaReturned
@@ -1373,7 +1534,7 @@ func r6ProducerBody(c *RuleCtx, fn *ssa.Function, props []string, name string, a
 				if e := siteOfCall[site]; e != nil && !knowOverflow {
 					known := true
 					for _, st := range states {
-						if st&evAssumeNonNil == 0 && st&e.u != 0 {
+						if st&evAssumeNonNil == 0 && retKnown(st) != nonNil && st&e.u != 0 {
 							known = false
 						}
 					}
@@ -1417,7 +1578,13 @@ func r6ProducerBody(c *RuleCtx, fn *ssa.Function, props []string, name string, a
 		if c.r6Fail == nil {
 			c.r6Fail = map[*ssa.Function]uint64{}
 		}
-		if failSeen {
+		if len(failKnown) > 0 {
+			m := uint64(evClosed | evRemoved)
+			for _, x := range failKnown {
+				m &= x
+			}
+			c.r6Fail[fn] = m
+		} else if failSeen {
 			c.r6Fail[fn] = failMust & (evClosed | evRemoved)
 		} else {
 			c.r6Fail[fn] = 0
@@ -2723,6 +2890,55 @@ func r6FaissProducers(c *RuleCtx) {
 						}
 					}
 				}
+				// ... or a variable that is assigned more than once (a named result: `return nil, err` stores
+				// nil into it): whether it holds the index depends on where one looks
+				var multiCell *ssa.Alloc
+				var multiStore *ssa.Store
+				if idxCell == nil {
+					if refs := idx.Referrers(); refs != nil {
+						for _, r := range *refs {
+							if st, ok := r.(*ssa.Store); ok && st.Val == idx {
+								if al, ok := st.Addr.(*ssa.Alloc); ok && len(cellStores(al)) > 1 {
+									multiCell, multiStore = al, st
+								}
+							}
+						}
+					}
+				}
+				const evHeld = 1 << 2 // multiCell currently holds the index
+				curEv := uint64(0)
+				instrIdx := func(in ssa.Instruction) int {
+					for i, x := range in.Block().Instrs {
+						if x == in {
+							return i
+						}
+					}
+					return -1
+				}
+				staticHeld := func(l *ssa.UnOp) bool {
+					if multiCell == nil || l.Parent() != fn || cellOf(l.X) != multiCell {
+						return false
+					}
+					sb, lb := multiStore.Block(), l.Block()
+					if !(sb == lb && instrIdx(multiStore) < instrIdx(l)) && !(sb != lb && sb.Dominates(lb)) {
+						return false
+					}
+					for _, s2 := range cellStores(multiCell) {
+						if s2 == multiStore || s2.Parent() != fn {
+							if s2 != multiStore {
+								return false // assigned in a closure: anything goes
+							}
+							continue
+						}
+						b2 := s2.Block()
+						after := (b2 == sb && instrIdx(s2) > instrIdx(multiStore)) || (b2 != sb && reachesBlock(sb, b2))
+						before := (b2 == lb && instrIdx(s2) < instrIdx(l)) || (b2 != lb && reachesBlock(b2, lb))
+						if after && before {
+							return false
+						}
+					}
+					return true
+				}
 				isIdx := func(v ssa.Value) bool {
 					if v == nil {
 						return false
@@ -2735,6 +2951,14 @@ func r6FaissProducers(c *RuleCtx) {
 							return true
 						}
 					}
+					if multiCell != nil {
+						if u, ok := root(v).(*ssa.UnOp); ok && u.Op == token.MUL && cellOf(u.X) == multiCell {
+							if u.Parent() == fn {
+								return staticHeld(u)
+							}
+							return curEv&evHeld != 0 // in a (deferred) closure: what the variable holds at that exit
+						}
+					}
 					return false
 				}
 				var pa *pathAnalysis
@@ -2744,8 +2968,15 @@ func r6FaissProducers(c *RuleCtx) {
 					if in == ssa.Instruction(call) {
 						return []uint64{(ev | evProduced) &^ evReleased}
 					}
+					curEv = ev
 					switch x := in.(type) {
 					case *ssa.Store:
+						if multiCell != nil && cellOf(x.Addr) == multiCell {
+							if x.Val == idx || isIdx(x.Val) {
+								return []uint64{ev | evHeld}
+							}
+							return []uint64{ev &^ evHeld}
+						}
 						if isIdx(x.Val) {
 							if _, _, _, ok := fieldOf(x.Addr); ok {
 								return []uint64{ev | evReleased} // ownership moved into a structure
@@ -2814,7 +3045,7 @@ func r6FaissProducers(c *RuleCtx) {
 					// in the branch where that error was found non-nil: nothing was produced
 					if call, ok := v.(*ssa.Call); ok && perr != nil && ns == nonNil && nilnessAt(perr, ret.Block()) == nonNil {
 						wraps := false
-						for _, a := range call.Call.Args {
+						for _, a := range expandedArgs(&call.Call) {
 							if sameValue(a, perr) || sameValue(resolveLoad(a), perr) {
 								wraps = true
 							}
@@ -3214,6 +3445,12 @@ func fileAcquirer(p *Program, k *ssa.Function) (acquirerInfo, bool) {
 	if k == nil || len(k.Blocks) == 0 || k.Parent() != nil {
 		return info, false
 	}
+	for i := range p.owners {
+		if p.owners[i].acquirer == k {
+			// hands back the owner of the file (owners.go): the owner stands for the file
+			return acquirerInfo{0, 1, -1, p.owners[i].pathParam, nil}, true
+		}
+	}
 	var open *ssa.Call
 	for _, cs := range callSites(k) {
 		if isCallTo(cs, "os.OpenFile") || isCallTo(cs, "os.Create") {
@@ -3281,4 +3518,85 @@ func fileAcquirer(p *Program, k *ssa.Function) (acquirerInfo, bool) {
 		}
 	}
 	return info, true
+}
+
+// expandedArgs: the arguments of a call, with a variadic slice built at the call site replaced by the
+// values stored into it (interface conversions looked through) — `fmt.Errorf("...: %w", err)` passes err.
+func expandedArgs(cc *ssa.CallCommon) []ssa.Value {
+	var out []ssa.Value
+	for _, a := range cc.Args {
+		sl, ok := a.(*ssa.Slice)
+		if !ok {
+			out = append(out, a)
+			continue
+		}
+		al, ok := sl.X.(*ssa.Alloc)
+		if !ok || al.Comment != "varargs" || al.Referrers() == nil {
+			out = append(out, a)
+			continue
+		}
+		for _, r := range *al.Referrers() {
+			ia, ok := r.(*ssa.IndexAddr)
+			if !ok || ia.Referrers() == nil {
+				continue
+			}
+			for _, r2 := range *ia.Referrers() {
+				if st, ok := r2.(*ssa.Store); ok && st.Addr == ssa.Value(ia) {
+					v := st.Val
+					if mi, ok := v.(*ssa.MakeInterface); ok {
+						v = mi.X
+					}
+					if ct, ok := v.(*ssa.ChangeInterface); ok {
+						v = ct.X
+					}
+					out = append(out, v)
+				}
+			}
+		}
+	}
+	return out
+}
+
+// flagGuardedHelper: a package-level routine of a file owner whose first test is on a bool field of the
+// owner (`func (sf *segmentFile) discardUnlessCommitted() { if sf.committed { return }; cleanup }`).
+// Returns what it certainly does to the file / path when the field is set and when it is not.
+func flagGuardedHelper(p *Program, callee *ssa.Function, args []ssa.Value, file, pathArg ssa.Value) (whenSet, whenUnset uint64, ok bool) {
+	if callee == nil || len(callee.Blocks) == 0 || callee.Parent() != nil {
+		return 0, 0, false
+	}
+	entry := callee.Blocks[0]
+	iff, isIf := entry.Instrs[len(entry.Instrs)-1].(*ssa.If)
+	if !isIf {
+		return 0, 0, false
+	}
+	cond, neg := iff.Cond, false
+	if u, isU := cond.(*ssa.UnOp); isU && u.Op == token.NOT {
+		cond, neg = u.X, true
+	}
+	u, isU := cond.(*ssa.UnOp)
+	if !isU || u.Op != token.MUL || !isBoolType(u) {
+		return 0, 0, false
+	}
+	fa, isFA := u.X.(*ssa.FieldAddr)
+	if !isFA || ownerOfType(p.owners, fa.X.Type()) == nil {
+		return 0, 0, false
+	}
+	if _, isPrm := fa.X.(*ssa.Parameter); !isPrm {
+		return 0, 0, false
+	}
+	for _, in := range entry.Instrs {
+		if _, isCall := in.(ssa.CallInstruction); isCall {
+			return 0, 0, false
+		}
+	}
+	pf, pp := r6HelperBind(p, callee, args, file, pathArg)
+	if pf == nil && pp == nil {
+		return 0, 0, false
+	}
+	tr := r6HelperTr(p, callee, pf, pp, 0)
+	t, f := guardSide(callee, entry, true, tr)&7, guardSide(callee, entry, false, tr)&7
+	if neg {
+		return f, t, true // true edge = flag not set
+	}
+	return t, f, true
 }
